@@ -604,7 +604,13 @@ class MacroProgram(ElementProgram):
                     self._maybe_trim(start['prefix']),
                     self._maybe_trim(start['suffix']),
                     nodes.Sequence(
-                        [attr for attr in attributes if
+                        # the fallback is rendered outside the element's
+                        # own attribute evaluation: plain copies without
+                        # the dict-attribute filters
+                        [nodes.Attribute(
+                            attr.name, attr.expression, attr.quote,
+                            attr.eq, attr.space, attr.default, [])
+                         for attr in attributes if
                          isinstance(attr, nodes.Attribute) and
                          isinstance(attr.expression, ast.Constant) and
                          isinstance(attr.expression.value, str)]
